@@ -43,7 +43,7 @@ using std::vector;
 
 // ---------------------------------------------------------------- Event pool (operator new interposer)
 namespace pool {
-static const int K = 16;
+static const int K = 128;
 static const size_t SLOT = 128;
 static char mem[K * SLOT] __attribute__((aligned(64)));
 static bool first_in_call = false;   // fallback when the Event classes are not nameable
@@ -300,7 +300,7 @@ static string handle(const string &payload) {
   g_clock = &clock;
   g_nser = 0; g_quiet = false; g_pool_exhausted = false;
   memset(g_slot_ser, 0xff, sizeof(g_slot_ser));
-  string tr, st;
+  string tr, st, rv;
   {
     TimeoutManager tm(NULL, &clock);
     g_tm = &tm;
@@ -333,7 +333,8 @@ static string handle(const string &payload) {
           break;
         }
       }
-      if (i) { tr += "/"; st += "/"; }
+      if (i) { tr += "/"; st += "/"; rv += "/"; }
+      rv += (o[0] == 'x') ? vh::str(next_in) : string("-");
       for (size_t k = 0; k < g_trace.size(); k++) tr += (k ? "," : "") + g_trace[k];
       st += state_s(next_in);
     }
@@ -341,7 +342,7 @@ static string handle(const string &payload) {
   }
   g_tm = NULL;
   if (g_pool_exhausted) return "tr=pool-exhausted";
-  return "tr=" + tr + ";st=" + st;
+  return "tr=" + tr + ";rv=" + rv + ";st=" + st;
 }
 }  // namespace ta
 
@@ -351,12 +352,28 @@ static string handle(const string &payload) {
 namespace ss {
 static VClock *g_clock;
 static vector<string> *g_log;
-static bool fired_rep(int ser) { g_log->push_back("F" + vh::str(ser) + "@" + vh::str(g_clock->Now())); return true; }
-static void fired_one(int ser) { g_log->push_back("F" + vh::str(ser) + "@" + vh::str(g_clock->Now())); }
+static bool g_early;
+static std::map<int, uint64_t> g_due;        // serial -> earliest legal firing time
+static std::map<int, uint64_t> g_interval;
+static void on_fire(int ser) {
+  uint64_t now = g_clock->Now();
+  if (now < g_due[ser]) g_early = true;      // clock_now < (registration or last firing) + interval
+  g_due[ser] = now + g_interval[ser];
+  g_log->push_back("F" + vh::str(ser) + "@" + vh::str(now));
+}
+static bool fired_rep(int ser) { on_fire(ser); return true; }
+static void fired_one(int ser) { on_fire(ser); }
 
-static string run_backend(const string &payload, bool force_select) {
+// called by the epoll_wait / select interposers when nothing is ready: the poller sleeps on the virtual clock
+static void vsleep(long long us) {
+  if (us < 0) { if (g_log) g_log->push_back("!sleep-forever"); return; }
+  g_clock->Advance(static_cast<uint64_t>(us));
+}
+
+static string run_backend(const string &payload, bool force_select, bool *early) {
   VClock clock;
   g_clock = &clock;
+  g_early = false; g_due.clear(); g_interval.clear();
   string out;
   {
     ola::io::SelectServer::Options opt;
@@ -376,29 +393,44 @@ static string run_backend(const string &payload, bool force_select) {
           vector<string> g = vh::split(rest, ',');
           bool rep = g[0] == "1";
           unsigned long long v = vh::num(g[1]);
-          int id = ser++;
-          if (o[0] == 'm') {
-            if (rep) server.RegisterRepeatingTimeout(static_cast<unsigned int>(v), ola::NewCallback(&fired_rep, id));
-            else server.RegisterSingleTimeout(static_cast<unsigned int>(v), ola::NewSingleCallback(&fired_one, id));
-          } else {
-            TimeInterval iv(static_cast<int64_t>(v));
-            if (rep) server.RegisterRepeatingTimeout(iv, ola::NewCallback(&fired_rep, id));
-            else server.RegisterSingleTimeout(iv, ola::NewSingleCallback(&fired_one, id));
+          int count = g.size() > 2 ? static_cast<int>(vh::num(g[2])) : 1;   // register <count> such timers
+          for (int k = 0; k < count; k++) {
+            int id = ser++;
+            uint64_t us = o[0] == 'm' ? static_cast<uint64_t>(static_cast<unsigned int>(v)) * 1000ULL : v;
+            g_interval[id] = us; g_due[id] = clock.Now() + us;
+            if (o[0] == 'm') {
+              if (rep) server.RegisterRepeatingTimeout(static_cast<unsigned int>(v), ola::NewCallback(&fired_rep, id));
+              else server.RegisterSingleTimeout(static_cast<unsigned int>(v), ola::NewSingleCallback(&fired_one, id));
+            } else {
+              TimeInterval iv(static_cast<int64_t>(v));
+              if (rep) server.RegisterRepeatingTimeout(iv, ola::NewCallback(&fired_rep, id));
+              else server.RegisterSingleTimeout(iv, ola::NewSingleCallback(&fired_one, id));
+            }
           }
           break;
         }
         case 'a': clock.Advance(vh::num(rest)); break;
-        case 'x': server.RunOnce(); break;
+        case 'x': case 'y': {
+          c16p::p_vsleep = &vsleep;
+          if (o[0] == 'x') server.RunOnce();
+          else server.RunOnce(TimeInterval(static_cast<int64_t>(vh::num(rest))));
+          c16p::p_vsleep = NULL;
+          break;
+        }
       }
       if (i) out += "/";
       for (size_t k = 0; k < log.size(); k++) out += (k ? "," : "") + log[k];
     }
     g_log = NULL;
   }
+  if (g_early) *early = true;
   return out;
 }
 static string handle(const string &payload) {
-  return "se=" + run_backend(payload, false) + ";ss=" + run_backend(payload, true);
+  bool early = false;
+  string e = run_backend(payload, false, &early);
+  string s = run_backend(payload, true, &early);
+  return "se=" + e + ";ss=" + s + ";early=" + (early ? "1" : "0");
 }
 }  // namespace ss
 
